@@ -504,6 +504,11 @@ fn random_pair(pool: Arc<UnitPool>) -> impl Strategy<Value = Case> {
     })
 }
 
+/// conformable compound conversions (used by C06 as well)
+pub fn conformable_strategy(pool: Arc<UnitPool>) -> impl Strategy<Value = Case> {
+    prop_oneof![3 => compound(pool.clone(), false, true).boxed(), 1 => sampled_pair(pool, false).boxed()]
+}
+
 fn small_class_pairs(pool: &UnitPool) -> Vec<Case> {
     let mut out = vec![];
     let mut k = 0usize;
